@@ -128,6 +128,8 @@ class FindIdentifiers(_ast_util.NodeVisitor):
             self.visit(n)
         self._visit_function(node, False)
 
+    visit_AsyncFunctionDef = visit_FunctionDef
+
     def _visit_generators(self, node):
         # targets first, so that they are known as local names when the
         # conditions and the element expression are visited
@@ -205,6 +207,8 @@ class FindIdentifiers(_ast_util.NodeVisitor):
             self.visit(statement)
         for statement in node.orelse:
             self.visit(statement)
+
+    visit_AsyncFor = visit_For
 
     def visit_Name(self, node):
         if isinstance(node.ctx, _ast.Store):
